@@ -20,43 +20,51 @@ from vf import gen
 
 LEVEL = "exploration"
 TECHNIQUE = ("runtime reference-model monitor: autograd gradients (1st and 2nd order) of gauge-invariant losses of symeig/svd "
-             "outputs vs torch.linalg.eigh/svd on the same leaves; finite differences of an independent forward along "
-             "degeneracy-breaking directions at exactly repeated eigenvalues; spies on the implicit/dense backward paths")
-LEVEL_TEXT = ("Held on every generated problem of the run: methods {exacteig, custom_exacteig, davidson, callable} x {no M, M} x "
+             "outputs vs torch.linalg.eigh/svd on the same leaves; five-point finite differences of an independent forward along "
+             "degeneracy-breaking directions at exactly repeated eigenvalues; counting spies on the implicit/dense backward paths")
+LEVEL_TEXT = ("Held on every generated problem of the run: methods {exacteig, custom_exacteig, davidson, user callable} x {no M, M} x "
               "operator kinds {dense-wrapped, matrix-free mv-only, matrix-free with fullmatrix, two-parameter diag+low-rank} x "
-              "neig<n and neig=n x lowest/uppest/uppermost x gaps {1, 0.1} and exact degeneracies (groups inside the selection) x "
-              "6 batch patterns x {float64, complex128} x backward solver {default, exactsolve, cg, bicgstab} x first and second "
-              "order; svd over tall/wide/square operators. Bounds: n<=8 (dense paths), n<=24 davidson (quick) / 40 (thorough), "
-              "cond(M)<=6, |eigenvalues|<=~8.")
-LEVEL_NOTE = ("Trusts torch.linalg.eigh/svd/cholesky and their autograd formulas away from degeneracy, and central finite "
-              "differences (error O(h^2)+O(eps/h) ~ 1e-9) at exact degeneracy; tolerances are >=100x the largest error seen on the "
-              "repaired tree and the tried mutations miss them by >=10x.")
-RULE = ("seeded sampling over group {eig, eigdeg, svd, svddeg} x method x M x operator kind x n x neig x mode x gap/multiplicity "
-        "pattern x batch pattern x dtype x backward solver; non-trivial = the cotangent is non-zero, the reference gradient of "
-        "every compared leaf is non-zero, the backward path promised by the method was observed by the spies (implicit: >=1 "
-        "shifted backward solve; dense: degen_symeig.backward ran), and for degenerate cases the backward saw a degeneracy map "
-        "(implicit path) and the finite-difference derivative is non-zero")
+              "neig<n and neig=n x lowest/uppest/uppermost x gaps {1, 0.1} and exact degeneracies (complete groups inside the "
+              "selection, also batches mixing degenerate and split elements) x 7 batch patterns of A and M x {float64, complex128} x "
+              "backward solver {default, exactsolve, cg, bicgstab} x first and second order; svd over tall/wide/square operators "
+              "(dense, mv+rmv, all products, mv only). Bounds: n<=8 (n<=24 quick / 40 thorough for davidson), cond(M)<=6, "
+              "|eigenvalues|<~8, singular values in [0.5, ~8].")
+LEVEL_NOTE = ("Trusts torch.linalg.eigh/svd/cholesky and their autograd formulas away from degeneracy, and five-point central "
+              "differences (h=1e-4, unit direction: truncation ~1e-12, round-off ~1e-10) at exact degeneracy. Tolerances are >=250x "
+              "the largest error seen on the repaired tree over ~150k comparisons; 14 seeded breaks of the backward formulas miss "
+              "them by >=1e3. A failing or inaccurate FORWARD is skipped (C05 decides it), a backward solve that warned is skipped.")
+RULE = ("seeded sampling over group {eig, eigdeg, svd, svddeg} x method x M x operator kind x n x neig x mode x gap / multiplicity "
+        "pattern x batch pattern x dtype x backward solver x loss class; non-trivial = the forward pairs agree with the reference, "
+        "the reference gradient (or finite-difference derivative) of every compared leaf is non-zero, the backward path promised by "
+        "the method was observed by the spies (implicit: >=1 shifted backward solve from symeig_torchfcn.backward; dense: "
+        "degen_symeig.backward ran) and, for degenerate cases on the implicit path, the backward built a degeneracy map")
 MIN_NONTRIVIAL = {"quick": 2500, "thorough": 25000}
 ASSUMPTIONS = [
-    "generalised eigenvalues prescribed: neighbouring distinct values differ by >= gap in {1, 0.1}; exactly repeated values only "
-    "in groups 'eigdeg'/'svddeg', where every repeated group lies completely inside (or completely outside) the selection",
-    "M = Q diag(m) Q^H with m in [1,6]; batched M that A broadcasts over is a scalar multiple c in [0.6,1] of one matrix",
-    "singular values in [0.5, 6] with the same gap rules (rank-deficient inputs are outside the generator)",
-    "davidson: float64 only (the method transposes without conjugation), min_eps=1e-10, max_niter=1000",
+    "generalised eigenvalues are prescribed (A = L Q diag(e) Q^H L^H, M = L L^H): neighbouring distinct values differ by >= gap in "
+    "{1, 0.1}; exactly repeated values only in groups 'eigdeg'/'svddeg', where every repeated group lies completely inside or "
+    "completely outside the selection; the two-parameter operator diag(d)+UU^H is skipped when it draws a gap < 0.08",
+    "M = Q diag(m) Q^H with m in [1,6]; a batched M that A broadcasts over is a scalar multiple c in [0.6,1] of one matrix",
+    "singular values >= 0.5 with the same gap rules (rank-deficient inputs are outside the generator)",
+    "leaves are unconstrained matrices P with A = (P+P^H)/2 (M likewise), so gradients w.r.t. Hermitian matrices are unambiguous",
+    "losses: sum of each complete group's eigenvalues, <W, X_g X_g^H>, a quartic in the projector; for separated spectra also "
+    "<W2, X_g f(E_g) X_g^H>; svd: sum of s_g, <R, U_g S_g V_g^H>, a quartic in it; for separated values also U_g U_g^H, V_g V_g^H, "
+    "U_g V_g^H. Loss classes 'spectral' (eigdeg) and 'proj' (svddeg) add the eigenvalue-weighted / one-sided terms at exact degeneracy",
+    "davidson: float64 only (the method transposes without conjugation), min_eps=1e-12, max_niter=1000",
     "iterative backward solvers are given rtol=1e-11, atol=1e-13, max_niter=40n+60; a backward that emits a ConvergenceWarning is "
     "not compared (it told the user)",
-    "first-order tolerance 2e-6 (dense/implicit direct, observed <=1e-9), second-order tolerance 2e-5 (observed <=1e-8), relative to "
-    "max(|reference gradient|, 1e-2); davidson with n>10: 1e-4; finite-difference oracle: |<g,d> - FD| <= 2e-6*max(1,|FD|) "
-    "(observed <= 2e-8)",
+    "tolerances relative to max(|reference gradient|, 1e-2): first order 2e-6 (largest seen 1.5e-9), second order 5e-4 (largest seen "
+    "2e-6: double backward through a direct solve of the singular shifted system), finite differences |<g,d>-FD| <= 2e-6*max(1,|FD|) "
+    "(largest seen 8e-9); each widened to 1e8 * (forward residual / orthonormality error) because a gradient cannot be more accurate "
+    "than the pairs it is evaluated at (davidson returns pairs accurate to ~1e-11 only); forward error > 1e-10 => skipped",
 ]
 BUDGET = {"quick": {"worker_timeout": 900, "case_timeout": 120}, "thorough": {"worker_timeout": 3300, "case_timeout": 300}}
 REQUIRED_COUNTERS = {
-    "quick": {"implicit_backward_solves": 300, "dense_backward_calls": 100, "degeneracy_maps_seen": 80, "bck_exactsolve": 100,
-              "bck_cg": 20, "bck_bicgstab": 20, "davidson_calls": 40, "second_order_compared": 150, "fd_directions_compared": 150,
-              "svd_cases_compared": 80, "with_M_compared": 150},
-    "thorough": {"implicit_backward_solves": 3000, "dense_backward_calls": 1000, "degeneracy_maps_seen": 800, "bck_exactsolve": 1000,
-                 "bck_cg": 200, "bck_bicgstab": 200, "davidson_calls": 400, "second_order_compared": 1500,
-                 "fd_directions_compared": 1500, "svd_cases_compared": 800, "with_M_compared": 1500},
+    "quick": {"implicit_backward_solves": 1500, "dense_backward_calls": 300, "degeneracy_maps_seen": 400, "bck_exactsolve": 800,
+              "bck_cg": 500, "bck_bicgstab": 400, "davidson_calls": 400, "first_order_compared": 700, "second_order_compared": 500,
+              "fd_directions_compared": 1500, "svd_cases_compared": 350, "with_M_compared": 400},
+    "thorough": {"implicit_backward_solves": 15000, "dense_backward_calls": 3000, "degeneracy_maps_seen": 4000, "bck_exactsolve": 8000,
+                 "bck_cg": 5000, "bck_bicgstab": 4000, "davidson_calls": 4000, "first_order_compared": 7000,
+                 "second_order_compared": 5000, "fd_directions_compared": 15000, "svd_cases_compared": 3500, "with_M_compared": 4000},
 }
 
 METHODS = ["exacteig", "custom_exacteig", "davidson", "custom_exacteig", "davidson", "callable"]
@@ -494,7 +502,7 @@ def _mech(desc, what):
     return "%s:%s:%s" % (desc["group"], what, cfg)
 
 
-TOL1, TOL2, TOLFD = 2e-6, 2e-5, 2e-6
+TOL1, TOL2, TOLFD = 2e-6, 5e-4, 2e-6
 FWD_AMPL = 1e8          # a gradient cannot be more accurate than the forward pairs it is evaluated at
 FWD_Q_MAX = 1e-10
 
